@@ -81,7 +81,17 @@ def run(ctx):
         names = []
         for e in elts:
             names.append(sorted({n.name for n in deep_walk(e) if isinstance(n, Param)}))
-        ok = len(elts) in (2, 3) and any('source' in n for n in names[:1])
+        pure_solvent = None
+        for c in facts_at(ex.state):
+            t = strip_refs(c.left)
+            if c.op in ('truth', 'falsy') and isinstance(t, ast.Call) and getattr(t.func, 'id', '') == 'isinstance' and \
+                    any(isinstance(n, Param) and n.name == 'solvent' for n in deep_walk(t.args[0])):
+                tn = unparse(t.args[1].orig if hasattr(t.args[1], 'orig') else t.args[1])
+                if tn.strip() in ('Substance', 'Container'):
+                    pure_solvent = (c.op == 'truth') == (tn.strip() == 'Substance')
+        want_n = 2 if pure_solvent else 3
+        ok = len(elts) == want_n and any('source' in n for n in names[:1]) and \
+            (pure_solvent or any('solvent' in n for n in names[1:-1]))
         ctx.ob('C12.R4', fi, ex.line, f"the residual source{' and solvent' if len(elts) == 3 else ''} and the new solution are returned",
                ok, fact=f"returns {len(elts)} objects", why='a depleted input is not handed back: material is lost',
                key='residuals returned')
